@@ -385,12 +385,18 @@ Qed.
 Lemma sel_ops_app : forall sk l1 l2, sel_ops sk (l1 ++ l2) = sel_ops sk l1 ++ sel_ops sk l2.
 Proof. intros. unfold sel_ops. apply flat_map_app. Qed.
 
-Lemma items_dead : forall (b : list req) c,
-  map it_req (map (fun q => (q, @None bool, c)) b) = b /\
-  Forall (fun x : item => it_committed x = c) (map (fun q => (q, @None bool, c)) b).
+Lemma items_dead_req : forall (b : list req) c,
+  map it_req (@map req (req * option bool * bool) (fun q => (q, @None bool, c)) b) = b.
 Proof.
-  intros b c. induction b as [|q b [IH1 IH2]]; cbn [map]; split; try constructor; auto.
-  unfold it_req at 1. cbn [fst]. congruence.
+  intros b c. induction b as [|q b IH]; cbn [map]; auto. unfold it_req at 1. cbn [fst]. congruence.
+Qed.
+Lemma sel_ops_dead : forall sk (b : list req) c,
+  sel_ops sk (@map req (req * option bool * bool) (fun q => (q, @None bool, c)) b) =
+  if c then flat_map (eff_ops sk) b else [].
+Proof.
+  intros sk b c. unfold sel_ops. induction b as [|q b IH]; cbn [map flat_map].
+  - destruct c; reflexivity.
+  - rewrite IH. unfold it_committed, it_req. cbn [fst snd]. destruct c; reflexivity.
 Qed.
 
 Theorem run_batches_structure : forall sk sched bs n st au,
@@ -413,12 +419,9 @@ Proof.
         destruct ok; cbn [batch_post] in Hat.
         -- destruct Hat as [_ [Hd _]]. rewrite Hd. apply txn_body_data.
         -- rewrite Hat. apply data_eq_refl.
-    + cbn [rr_items rr_state concat].
-      pose proof (items_dead b c) as [Hb1 Hb2].
-      pose proof (items_dead (concat bs) false) as [Hr1 Hr2].
-      split.
-      * rewrite map_app, Hb1, Hr1. reflexivity.
-      * rewrite sel_ops_app, (sel_ops_const sk _ c Hb2), (sel_ops_const sk _ false Hr2), Hb1, app_nil_r.
+    + cbn [rr_items rr_state concat]. split.
+      * rewrite map_app, !items_dead_req. reflexivity.
+      * rewrite sel_ops_app, !sel_ops_dead, app_nil_r.
         destruct c; cbn [batch_post] in Hat.
         -- destruct Hat as [_ [Hd _]]. rewrite Hd. apply txn_body_data.
         -- rewrite Hat. apply data_eq_refl.
